@@ -135,8 +135,15 @@ class ChooseWords(Job):
             a = AL.Allocator(DebugTiming())
             rc, c = RCRec(), CodeRec()
             a.wire(rc, c)
-            a.connected()
-            a.allocate(n, WL.PGPWordList())
+            # allocate_code() may be called before or after the server connection is up
+            order = eng().choose(2, "allocate_before_connect")
+            eng().inputs["allocate_before_connect"] = order
+            if order:
+                a.allocate(n, WL.PGPWordList())
+                a.connected()
+            else:
+                a.connected()
+                a.allocate(n, WL.PGPWordList())
             check(rc.tx == ["allocate"], "allocate did not send exactly one allocate command")
             a.rx_allocated(nameplate)
         check(len(c.got) == 1, "no code produced")
@@ -175,6 +182,38 @@ class ChooseWords(Job):
             b = rnd[len(calls) - 1]
             return (b * k)[:k]
         real = WL.os.urandom
+        # through the real Allocator first, in the call order of the counterexample
+        got = []
+        a = AL.Allocator(DebugTiming())
+
+        @implementer(_interfaces.ICode)
+        class CodeRec2:
+            def allocated(s, nameplate, code):
+                got.append((nameplate, code))
+
+        @implementer(_interfaces.IRendezvousConnector)
+        class RCRec2:
+            def tx_allocate(s):
+                pass
+        a.wire(RCRec2(), CodeRec2())
+        WL.os.urandom = fake
+        try:
+            if inp.get("allocate_before_connect"):
+                a.allocate(n, WL.PGPWordList())
+                a.connected()
+            else:
+                a.connected()
+                a.allocate(n, WL.PGPWordList())
+            a.rx_allocated(inp.get("nameplate", "4"))
+        finally:
+            WL.os.urandom = real
+        if len(got) != 1:
+            return "Allocator produced %d codes" % len(got)
+        code = got[0][1]
+        if not code.startswith(inp.get("nameplate", "4") + "-") or len(code.split("-")) != n + 1:
+            return "allocate(%d) %s the connection was up produced %r: not the nameplate followed by exactly %d words" % (
+                n, "before" if inp.get("allocate_before_connect") else "after", code, n)
+        calls.clear()
         WL.os.urandom = fake
         try:
             words = WL.PGPWordList().choose_words(n)
